@@ -49,15 +49,18 @@ def workdir(prop):
     return d
 
 
-def run_harness(scens, wd, tag):
+def run_harness(scens, wd, tag, isolate=False):
     """run scenarios -> (trace path, defs path, summaries)"""
     sp = os.path.join(wd, f"{tag}.scen.ndjson")
     tp = os.path.join(wd, f"{tag}.trace.ndjson")
     with open(sp, "w") as f:
         for s in scens:
             f.write(json.dumps(s) + "\n")
+    env = dict(os.environ)
+    if isolate:
+        env["QV_ISOLATE"] = "1"
     p = subprocess.run([QV, "run", sp, tp], stdout=subprocess.PIPE, stderr=subprocess.PIPE,
-                       text=True, timeout=1800)
+                       text=True, timeout=1800, env=env)
     if p.returncode != 0:
         log(p.stderr[-3000:])
         raise ToolError(f"harness failed on {tag}")
@@ -132,7 +135,7 @@ def tlc_enumerate(spec, cfg=None, env=None, timeout=600):
     return recs, gen, dist
 
 
-def run_batch(scens, wd, mode="", known="", par=8, chunk=None):
+def run_batch(scens, wd, mode="", known="", par=8, chunk=None, isolate=False):
     """run all scenarios (in parallel chunks) and validate; returns a dict
     name -> result"""
     if not scens:
@@ -147,7 +150,9 @@ def run_batch(scens, wd, mode="", known="", par=8, chunk=None):
 
     def one(i):
         tag = f"c{i}"
-        tp, dp, summ = run_harness(chunks[i], wd, tag)
+        tp, dp, summ = run_harness(chunks[i], wd, tag, isolate)
+        if os.path.getsize(tp) == 0:
+            return i, tp, summ, [], 0, 0
         recs, gen, dist = run_tlc(tp, dp, wd, tag, mode, known)
         return i, tp, summ, recs, gen, dist
 
@@ -190,6 +195,10 @@ def run_batch(scens, wd, mode="", known="", par=8, chunk=None):
         for sc in chunks[i]:
             res = results[sc["name"]]
             res["viols"] = res["viols"] + res["pathviols"]
+            if res["summary"].get("crashed"):
+                # the process running this scenario died (isolated mode)
+                res["accepted"] = True
+                res["viols"].append(dict(prop="CRASH", line=0, detail=["process died", res["summary"]["crashed"]]))
             if not res["accepted"] and res["reached"] is not None:
                 if lines is None:
                     with open(tp) as f:
